@@ -6,7 +6,7 @@ from loadlib import *
 ID = "C02"
 GEN = ["Candidates"]
 THEOREMS = ["C02_ok_restores_locks", "C02_loop_sound", "C02_acyclic_no_loop", "C02_acyclic_terminates",
-            "C02_refuted_loadcss", "C02_termination_refuted", "C02_refuted_spelling_partial"]
+            "C02_refuted_loadcss", "C02_termination_refuted", "C02_refuted_spelling"]
 COQ_HEADER = ("From Coq Require Import String List ZArith NArith.\nFrom RV Require Import Gen.Candidates Model.Load Model.LoadRun Run.C02.\n"
               "Import ListNotations.\nLocal Open Scope string_scope.")
 RUN_EXPR = "Run.C02.run"
@@ -64,14 +64,15 @@ def may_diverge(n, edges):
                     seen.add(y)
                     todo.append(y)
         return False
+    live = {0} | {i for i in range(n) if reach(0, i, adj)}       # files reachable from the root
     for (s, d, k, sp) in edges:
-        if d is not None and sp != "{}" and "nodir" not in sp and (d == s or reach(d, s, adj)):
+        if s in live and d is not None and sp != "{}" and "nodir" not in sp and (d == s or reach(d, s, adj)):
             return True
     lc = {i: set() for i in range(n)}
     for (s, d, k, sp) in edges:
-        if d is not None and k == "loadcss":
+        if s in live and d is not None and k == "loadcss":
             lc[s].add(d)
-    return any(reach(i, i, lc) for i in range(n))
+    return any(reach(i, i, lc) for i in live)
 
 
 def gen_cases(ctx, tier):
@@ -206,7 +207,7 @@ LEVEL_TEXT = ("proof: invariant over Context.loading (every locked key is the na
               "load restores the lock set) gives soundness of loop errors for every loader and every world: a loop error exhibits a "
               "real cycle through the stack; on ranked (acyclic) load graphs the model terminates within rank+1 nested loads and "
               "never reports a loop; the full statement is refuted with two witnesses "
-              "(load-css self loop: for every fuel; `./` spelling: up to the stated depth); tied to the code by exact loader-call-log "
+              "(load-css self loop and `./` spelling, both for every fuel); tied to the code by exact loader-call-log "
               "and output correspondence over generated graphs")
 LEVEL_NOTE = ("trusted: Coq kernel+vm_compute, the harness (normalising in-memory loader), Spec/LoadRef.v; F5 and F6 are recorded as "
               "two narrow known-finding classes (cycle through a spelled url; cycle made of load-css loads)")
